@@ -179,8 +179,13 @@ func ruleGC(c *Ctx, rule string) {
 	if fn := c.MustFn(rule, gcPkg, "(*flannelGC).removeLeakyStateFile"); fn != nil {
 		var cb []ssa.Instruction
 		allInstrs(fn, func(in ssa.Instruction) {
-			if call, ok := in.(*ssa.Call); ok && calleeName(call) == "" && pathEndsWith(call.Call.Value, "cleanPortFunc") {
-				cb = append(cb, call)
+			if call, ok := in.(*ssa.Call); ok && calleeName(call) == "" {
+				// the callback field itself, or a parameter that every caller fills with it
+				if pathEndsWith(call.Call.Value, "cleanPortFunc") {
+					cb = append(cb, call)
+				} else if _, isP := call.Call.Value.(*ssa.Parameter); isP && allActuals(call.Call.Value, func(v ssa.Value) bool { return pathEndsWith(v, "cleanPortFunc") }) {
+					cb = append(cb, call)
+				}
 			}
 		})
 		rm := calls(fn, "os.Remove")
